@@ -1450,6 +1450,7 @@ def namedtuple_rows(mod: ast.Module) -> ast.Module:
                     if len(given) == len(fs):
                         t = ast.copy_location(ast.Tuple(elts=[given[f] for f in fs], ctx=ast.Load()), n)
                         t._nt_fields = list(fs)
+                        t._nt_type = n.func.id
                         return t
             return n
     return ast.fix_missing_locations(Rows().visit(mod))
